@@ -33,6 +33,16 @@ def run_sys(run, quick=True):
             return info, lines, "event %d is not a step of Kerberos5: %s" % (pos, lines[pos - 1])
         if info["ap_accept"] == 0 or info["ap_reject"] == 0:
             raise vlib.Inconclusive("system trace vacuous: %s" % info)
+        # ---- binding self-test (DESIGN 0.6): the same run with one refused presentation reported as accepted is not a behaviour
+        k = next((i for i, x in enumerate(lines) if x["ev"] == "ap" and x["result"] == "reject"), None)
+        if k is not None:
+            bad = [dict(x) for x in lines]
+            bad[k]["result"] = "accept"
+            vlib.write_ndjson(trace, bad)
+            res2 = vlib.tlc(wd, "TraceK5", workers=1, timeout=1200)
+            info["binding_selftest"] = {"corrupted_event": k + 1, "rejected": bool(res2.tags("REJECTED")) or bool(res2.violation)}
+            if not info["binding_selftest"]["rejected"]:
+                raise vlib.Inconclusive("binding self-test: TraceK5 accepts a run in which refused presentation %d is reported accepted" % (k + 1))
         return info, lines, None
     finally:
         shutil.rmtree(wd, ignore_errors=True)
